@@ -504,6 +504,12 @@ func getRound(n float64) float64 {
 		return n
 	}
 
+	if n < 0 && n > -0.5 {
+		// n - math.Floor(n) is not exact in this interval: for the double just
+		// above -0.5 it rounds to exactly 0.5 and would be taken for a tie.
+		return 0
+	}
+
 	f := math.Floor(n)
 	d := n - f
 
